@@ -5,6 +5,7 @@ package main
 import (
 	"fmt"
 	"go/types"
+	"os"
 	"strings"
 )
 
@@ -693,6 +694,9 @@ func (env *rEnv) binary(n *rNode) Value {
 		// counts as false: the obligation then is that the antecedent does not hold here
 		c := env.term(n.Args[1])
 		if env.err != nil && env.pol >= 0 {
+			if os.Getenv("ROSVC_DEBUGRSL") != "" {
+				fmt.Fprintf(os.Stderr, "DEBUG consequent not evaluable: %v\n", env.err)
+			}
 			env.err = nil
 			c = TFalse
 		}
